@@ -8,6 +8,10 @@ Requests (space separated tokens, no spaces inside a token):
   switch <K> <env> <val> <pat> <pat> …    first arm that accepts;            ok <i>;<dump> | throw
   bind   <K> <env> <vals> <pat> …         lambda parameters against the argument list `[v,…]`
   hist   <K> <env> <stmt> …               statement history (see `NoulithModel.Impl.PatternStmt`)
+  switchb <K> <env> <val> <body> <pat> <body> <pat> …   `switch` with arm bodies: body = letters `l` (append the
+                                          arm's index to variable 7) and `t` (then `throw "boom"`) or `o` (then the value
+                                          `[i, <dump>]`);   ok [[i,<dump>],<log>] | ok ["B",<log>] (the body's error) |
+                                          ok ["N",<log>] (no case matched)
   for    <K> <env> <clause> … <bstmt> …   a `for` loop over `<-` / `<<-` clauses whose patterns hold
                                           unevaluated annotation / callee expressions (see
                                           `NoulithModel.Impl.PatternFor`); a raise is recorded by
@@ -33,6 +37,7 @@ import NoulithModel.Spec.TypedStore
 import NoulithModel.Impl.PatternChain
 import NoulithModel.Impl.PatternConv
 import NoulithModel.Spec.MatchFor
+import NoulithModel.Spec.MatchSwitch
 
 namespace Noulith.DriverC12
 open Noulith Noulith.C12
@@ -623,6 +628,31 @@ def forRes (k : Nat) (e : Env) (completed : Bool) : String :=
     | (e1, .ok ()) => "ok " ++ dump k e1
     | _ => "throw"
 
+
+/-! ### `switch` with arm bodies -/
+
+def parseBody (i : Nat) (code : String) : ArmBody :=
+  { stmts := if code.contains 'l' then [.stmt (.opAssign (.ident 7 []) .append (.int i))] else [],
+    raises := code.contains 't' }
+
+def pairArms (sp : Bool) : Nat → List String → Option (List (Pat × ArmBody))
+  | _, [] => some []
+  | i, code :: pat :: rest =>
+    match full (pPat sp) pat, pairArms sp (i + 1) rest with
+    | some p, some arms => some ((p, parseBody i code) :: arms)
+    | _, _ => none
+  | _, _ => none
+
+def swRes (k : Nat) (r : Env × SwOut) : String :=
+  let log := match r.1.get? 7 with
+    | some c => renderVal c.val
+    | none => "U"
+  match r.2 with
+  | .value i => s!"ok [[{i}," ++ dump k r.1 ++ "]," ++ log ++ "]"
+  | .bodyRaise => "ok [s:42," ++ log ++ "]"
+  | .noMatch => "ok [s:4e," ++ log ++ "]"
+  | .panic => "panic"
+
 def handle (args : List String) : String :=
   match args with
   | ["fresh", k, env, val, pat] =>
@@ -657,6 +687,12 @@ def handle (args : List String) : String :=
     match k.toNat?, parseEnv env, stmts.mapM (full (pStmt false)), stmts.mapM (full (pStmt true)) with
     | some k, some e, some ss, some ts => implHist k (execHistory e ss) ++ tab ++ specHist k (specHistory e ts)
     | _, _, _, _ => "bad-op"
+  | "switchb" :: k :: env :: val :: rest =>
+    match k.toNat?, parseEnv env, full pVal val, pairArms false 0 rest, pairArms true 0 rest with
+    | some k, some e, some v, some arms, some sarms =>
+      swRes k (switchRun e v arms 0) ++ tab ++ swRes k (specSwitchRun e v sarms)
+        ++ unmodelled e [v] (arms.map Prod.fst ++ sarms.map Prod.fst)
+    | _, _, _, _, _ => "bad-op"
   | "for" :: k :: env :: rest =>
     let cls := rest.takeWhile (·.startsWith "C")
     let bss := rest.drop cls.length
